@@ -20,29 +20,8 @@ from .c07 import evaluate, _short
 V2 = 'djinterop::engine::v2::'
 
 
-def run(tier='quick'):
-    prog = program.load()
-    cg = callgraph.get(prog)
-    eff = effects.Effects(prog, cg)
-    chk = Check('C09', tier)
-    chk.units = len(prog.tus)
-    P1 = chk.rule('P1', 'a 2.x operation that changes parentListId re-assigns nextListId, and one that links a '
-                        'new list in front of another row\'s successor first checks (un-conjoined) that this row '
-                        'is a sibling', floor=3)
-    P2 = chk.rule('P2', 'the DDL of every 2.x version splices the sibling chain on INSERT (before and after) and '
-                        'DELETE of a Playlist and relinks the entity chain on DELETE of a PlaylistEntity (matched '
-                        'on timing / event / table / assigned column of the parsed triggers)', floor=25)
-    P3 = chk.rule('P3', 'both chain walkers start at the no-successor sentinel the writers store, test the tail '
-                        'lookup against end() before using it (a throw, not an assert), and add_back appends '
-                        'behind the current tail inside one transaction; the walk direction matches the insertion side', floor=8)
-    chk.assume('SQLite fires the triggers as declared; the relinking they perform is correct (not decided)')
-    chk.note('not decided: that listings return every item exactly once in the documented order after '
-             'arbitrary histories - this needs the semantics of the triggers and UPDATE statements')
-
-    c07.position_pair(prog, cg, eff, chk, P1)
-    c07.successor_is_sibling(prog, cg, eff, chk, P1)
-
-    # ---- P2 ------------------------------------------------------------------------------
+def splice_triggers_present(prog, chk, P2):
+    """Every supported 2.x DDL has the triggers that splice the sibling and entry chains (shared with C11)."""
     order = rowrules.enum_order(prog)
     cats = rowrules.version_catalogs(prog)
     from . import c13
@@ -74,6 +53,33 @@ def run(tier='quick'):
         else:
             chk.violation(P2, '%s|children kept on delete' % en, en,
                           '%s: no DELETE trigger on Playlist removes the child lists' % en)
+
+
+
+def run(tier='quick'):
+    prog = program.load()
+    cg = callgraph.get(prog)
+    eff = effects.Effects(prog, cg)
+    chk = Check('C09', tier)
+    chk.units = len(prog.tus)
+    P1 = chk.rule('P1', 'a 2.x operation that changes parentListId re-assigns nextListId, and one that links a '
+                        'new list in front of another row\'s successor first checks (un-conjoined) that this row '
+                        'is a sibling', floor=3)
+    P2 = chk.rule('P2', 'the DDL of every 2.x version splices the sibling chain on INSERT (before and after) and '
+                        'DELETE of a Playlist and relinks the entity chain on DELETE of a PlaylistEntity (matched '
+                        'on timing / event / table / assigned column of the parsed triggers)', floor=25)
+    P3 = chk.rule('P3', 'both chain walkers start at the no-successor sentinel the writers store, test the tail '
+                        'lookup against end() before using it (a throw, not an assert), and add_back appends '
+                        'behind the current tail inside one transaction; the walk direction matches the insertion side', floor=8)
+    chk.assume('SQLite fires the triggers as declared; the relinking they perform is correct (not decided)')
+    chk.note('not decided: that listings return every item exactly once in the documented order after '
+             'arbitrary histories - this needs the semantics of the triggers and UPDATE statements')
+
+    c07.position_pair(prog, cg, eff, chk, P1)
+    c07.successor_is_sibling(prog, cg, eff, chk, P1)
+
+    # ---- P2 ------------------------------------------------------------------------------
+    splice_triggers_present(prog, chk, P2)
 
     c08.chain_trigger_siblings(prog, chk, P2)
     # the splice statements match rows by identifiers of one kind (entity with entity, list with list)
